@@ -595,7 +595,14 @@ func runC18(r *Run) {
 	var fixedScn []c18Scn
 	for _, raw := range r.FixedCases() {
 		var c c18Case
-		if json.Unmarshal(raw, &c) == nil {
+		var kind struct {
+			Kind string `json:"kind"`
+		}
+		_ = json.Unmarshal(raw, &kind)
+		if kind.Kind == "client" {
+			c.Kind = "client"
+		}
+		if c.Kind == "client" || json.Unmarshal(raw, &c) == nil {
 			r.Count("case/fixed")
 			if c.Kind == "client" {
 				var scn struct {
